@@ -124,6 +124,27 @@ func (e *Env) resolveType(s string) (types.Type, string) {
 	if srt, ok := e.fg.g.specSorts[s]; ok {
 		return nil, srt
 	}
+	if i := strings.Index(s, "["); i > 0 && strings.HasSuffix(s, "]") && !strings.HasPrefix(s, "seq[") && !strings.HasPrefix(s, "map[") {
+		// generic instantiation
+		base, _ := e.resolveType(s[:i])
+		named, ok := base.(*types.Named)
+		if !ok || named.TypeParams().Len() == 0 {
+			e.fg.fail("%s is not a generic type", s[:i])
+		}
+		var targs []types.Type
+		for _, a := range splitTop(s[i+1:len(s)-1], ',') {
+			t, _ := e.resolveType(strings.TrimSpace(a))
+			if t == nil {
+				e.fg.fail("cannot resolve type argument %s", a)
+			}
+			targs = append(targs, t)
+		}
+		inst, err := types.Instantiate(nil, named, targs, false)
+		if err != nil {
+			e.fg.fail("cannot instantiate %s: %v", s, err)
+		}
+		return inst, ""
+	}
 	if i := strings.Index(s, "."); i >= 0 {
 		pn, tn := s[:i], s[i+1:]
 		if p := e.fg.g.findPkg(e.pkg, pn); p != nil {
@@ -400,6 +421,12 @@ func (e *Env) ident(x *SExpr) Val {
 	}
 	if sf, ok := e.fg.g.ct.Funcs[name]; ok && len(sf.Params) == 0 {
 		return e.applySpecFunc(x, sf, nil)
+	}
+	// x0: the value of parameter x on entry (parameters are mutable in Go)
+	if strings.HasSuffix(name, "0") {
+		if v, ok := e.fg.params[strings.TrimSuffix(name, "0")]; ok {
+			return v
+		}
 	}
 	e.fail(x, "unknown identifier %s", name)
 	return Val{}
@@ -803,7 +830,9 @@ func (e *Env) call(x *SExpr) Val {
 					_, ml := fg.mapFamilies(u)
 					return intVal(fmt.Sprintf("(select %s %s)", fg.heap(e.st, ml, ""), a.T))
 				case *types.Chan:
-					return intVal(fmt.Sprintf("(select %s %s)", fg.heap(e.st, "CH_len", "(Array Int Int)"), a.T))
+					fam := "CH_" + name
+					fg.heapSort[fam] = "(Array Int Int)"
+					return intVal(fmt.Sprintf("(select %s %s)", fg.heap(e.st, fam, "(Array Int Int)"), a.T))
 				}
 				e.fail(x, "len of %v", a.Ty)
 			case "int", "int64", "int32", "uint64", "uint32", "uint", "uint8", "byte", "int8", "int16", "uint16":
@@ -838,6 +867,10 @@ func (e *Env) call(x *SExpr) Val {
 				a := e.tr(x.Args[0])
 				b := e.tr(x.Args[1])
 				return boolVal(fmt.Sprintf("(= %s %s)", a.T, b.T))
+			case "chanClosed":
+				a := e.tr(x.Args[0])
+				fg.heapSort["CH_closed"] = "(Array Int Bool)"
+				return boolVal(fmt.Sprintf("(select %s %s)", fg.heap(e.st, "CH_closed", "(Array Int Bool)"), a.T))
 			case "isNilSlice":
 				a := e.tr(x.Args[0])
 				return boolVal(fmt.Sprintf("(= (s.arr %s) 0)", a.T))
